@@ -166,6 +166,65 @@ type RunSpec struct {
 	Hist          *History        `json:"hist,omitempty"`
 	Ref           *RefPeer        `json:"ref,omitempty"`
 	Close         *CloseSpec      `json:"close,omitempty"`
+	Socks         *SocksSpec      `json:"socks,omitempty"`
+}
+
+// SocksSpec drives the production server stack (protocol.Mux + socks5.Server
+// built against the simulated OS network "vnet") and, optionally, the client
+// daemon's SOCKS5 front end.
+type SocksSpec struct {
+	Mode    string    `json:"mode"` // "server": raw SOCKS requests over a client mux; "daemon": app -> client daemon SOCKS5 -> mux -> server; "auth": SOCKS5 negotiation only (C11)
+	Rules   []ERule   `json:"rules,omitempty"`
+	Reqs    []SReq    `json:"reqs,omitempty"`
+	Auth    *AuthSpec `json:"auth,omitempty"`
+	ReadBuf int       `json:"readBuf,omitempty"` // application read buffer for tunnel replies (0 = 65536)
+}
+
+type ERule struct {
+	IPRanges []string `json:"ipRanges,omitempty"`
+	Domains  []string `json:"domains,omitempty"`
+	Action   string   `json:"action"` // PROXY | DIRECT | REJECT
+}
+
+type SReq struct {
+	Client  int      `json:"client"`
+	AtUs    int64    `json:"atUs"`
+	Cmd     int      `json:"cmd"`   // 1 CONNECT, 3 UDP ASSOCIATE
+	AType   int      `json:"atype"` // 1 IPv4, 3 domain, 4 IPv6
+	Host    string   `json:"host"`  // IP literal or domain (may be empty)
+	Port    int      `json:"port"`
+	Data    int      `json:"data,omitempty"` // CONNECT: bytes to send and expect echoed
+	Dgrams  []SDgram `json:"dgrams,omitempty"`
+	Raw     []byte   `json:"raw,omitempty"`     // if set, these bytes are written instead of a well-formed request
+	Wrapper bool     `json:"wrapper,omitempty"` // UDP: the application uses apicommon.UDPAssociateWrapper on top of the tunnel
+}
+
+type SDgram struct {
+	AType     int    `json:"atype"`
+	Host      string `json:"host"`
+	Port      int    `json:"port"`
+	Size      int    `json:"size"`
+	Fill      int    `json:"fill,omitempty"`      // 0 PRF, 1 all 0x00, 2 all 0xff, 3 alternating 00/ff
+	Malformed string `json:"malformed,omitempty"` // "" | bad-prefix | bad-suffix | truncated | short-header | frag
+	GapUs     int64  `json:"gapUs,omitempty"`
+}
+
+// AuthSpec is a batch of SOCKS5 negotiations against one configuration (C11).
+type AuthSpec struct {
+	Creds      [][2]string `json:"creds"`      // configured user/password pairs
+	ServerSide bool        `json:"serverSide"` // authentication performed by the proxy server instead of the client daemon
+	Cases      []AuthCase  `json:"cases"`
+}
+
+type AuthCase struct {
+	Methods  []int  `json:"methods"`
+	SubVer   int    `json:"subVer"` // sub-negotiation version byte (1 is valid)
+	User     string `json:"user"`
+	Pass     string `json:"pass"`
+	Pipeline bool   `json:"pipeline,omitempty"` // send greeting, credentials and request without waiting for replies
+	CutAt    int    `json:"cutAt,omitempty"`    // close the connection after this many bytes were sent (0 = never)
+	StallUs  int64  `json:"stallUs,omitempty"`  // pause this long before the request
+	Chunk    int    `json:"chunk,omitempty"`    // write in pieces of at most this many bytes (0 = whole)
 }
 
 // CloseSpec drives the C15 scenario: independent actors on both ends of each
@@ -193,7 +252,7 @@ type AOp struct {
 
 type Event struct {
 	AtUs int64  `json:"atUs"`
-	Kind string `json:"kind"` // client-stop | server-stop | reset | blackhole | udp-blackhole
+	Kind string `json:"kind"`          // client-stop | server-stop | reset | blackhole | udp-blackhole
 	Arg  int    `json:"arg,omitempty"` // client index / connection index
 }
 
@@ -201,24 +260,24 @@ type Event struct {
 // talks to a real endpoint with its own, possibly skewed, clock and with every
 // freedom the document allows.
 type RefPeer struct {
-	Mode           string  `json:"mode"` // "client": reference client vs real server; "server": real client vs reference server
-	Transport      string  `json:"transport"`
-	User           int     `json:"user"`
-	SkewUs         int64   `json:"skewUs"`             // reference clock = bubble clock + skew
-	KeySkewUs      *int64  `json:"keySkewUs,omitempty"` // override for the key-derivation instant
-	TsSkewUs       *int64  `json:"tsSkewUs,omitempty"`  // override for the timestamp instant
-	JumpAfter      int     `json:"jumpAfter,omitempty"` // after this many sent segments the reference clock jumps by JumpUs
-	JumpUs         int64   `json:"jumpUs,omitempty"`
-	Expect         string  `json:"expect"` // accept | refuse | either
-	Writes         []int   `json:"writes"` // application payload sizes sent by the initiating side
-	PiggybackExtra int     `json:"piggybackExtra,omitempty"`
-	Pad1           []int   `json:"pad1,omitempty"` // padding lengths, cycled
-	Pad2           []int   `json:"pad2,omitempty"`
-	LEMode         int     `json:"leMode,omitempty"`
-	LERot          int     `json:"leRot,omitempty"`
-	LEPadBit       int     `json:"lePadBit,omitempty"`
-	MaxChunk       int     `json:"maxChunk,omitempty"` // echo/data segment payload size cap
-	AckOnly        bool    `json:"ackOnly,omitempty"`  // interleave ack-only segments
+	Mode           string `json:"mode"` // "client": reference client vs real server; "server": real client vs reference server
+	Transport      string `json:"transport"`
+	User           int    `json:"user"`
+	SkewUs         int64  `json:"skewUs"`              // reference clock = bubble clock + skew
+	KeySkewUs      *int64 `json:"keySkewUs,omitempty"` // override for the key-derivation instant
+	TsSkewUs       *int64 `json:"tsSkewUs,omitempty"`  // override for the timestamp instant
+	JumpAfter      int    `json:"jumpAfter,omitempty"` // after this many sent segments the reference clock jumps by JumpUs
+	JumpUs         int64  `json:"jumpUs,omitempty"`
+	Expect         string `json:"expect"` // accept | refuse | either
+	Writes         []int  `json:"writes"` // application payload sizes sent by the initiating side
+	PiggybackExtra int    `json:"piggybackExtra,omitempty"`
+	Pad1           []int  `json:"pad1,omitempty"` // padding lengths, cycled
+	Pad2           []int  `json:"pad2,omitempty"`
+	LEMode         int    `json:"leMode,omitempty"`
+	LERot          int    `json:"leRot,omitempty"`
+	LEPadBit       int    `json:"lePadBit,omitempty"`
+	MaxChunk       int    `json:"maxChunk,omitempty"` // echo/data segment payload size cap
+	AckOnly        bool   `json:"ackOnly,omitempty"`  // interleave ack-only segments
 }
 
 // History is an operation history against one component under the virtual
